@@ -324,7 +324,7 @@ func runC01(r *rt.Run) {
 	})
 
 	// scaled / translated copies of the depth-4 ring tree (float exactness at 2^20)
-	xfs := []Xf{{Scale: 131072}, {Scale: 0.5, Tx: 1048570, Ty: -1048570}, {Scale: 1.0 / 1024, Tx: 0, Ty: 0}, {Scale: 1.0 / (1 << 30)}}
+	xfs := []Xf{{Scale: 131072}, {Scale: 0.5, Tx: 1048570, Ty: -1048570}, {Scale: 1.0 / 1024, Tx: 0, Ty: 0}, {Scale: 1.0 / (1 << 30)}, farFineXf}
 	for _, t := range xfs {
 		t := t
 		fH := t.pts(H4)
@@ -335,7 +335,7 @@ func runC01(r *rt.Run) {
 			})
 		})
 	}
-	r.Bounds["transforms"] = []string{ident.String(), xfs[0].String(), xfs[1].String(), xfs[2].String(), xfs[3].String()}
+	r.Bounds["transforms"] = []string{ident.String(), xfs[0].String(), xfs[1].String(), xfs[2].String(), xfs[3].String(), xfs[4].String()}
 
 	// oracle self-check: parity == winding on simple rings (cheap, every run)
 	rings := lat.SimpleRings(lat.Lattice(3, -1), 5)
